@@ -139,6 +139,61 @@ func (e *Engine) inlineStackHas(fr *frame, fn *ssa.Function) bool {
 
 func (e *Engine) staticCall(fr *frame, x *ssa.Call, fn *ssa.Function, args []Value, st *State, k func(st *State, res Value)) {
 	key := FuncKey(fn)
+	if fr.inl == "" && e.cur != nil && e.cur.spec != nil && len(e.cur.spec.CallAssumes) > 0 {
+		// callsite … assumes …: stated assumptions about direct calls of the function under contract
+		mkEnv := func(s *State, res Value) *specEnv {
+			env := &specEnv{e: e, heap: &s.heap, old: &e.cur.entry.heap, vars: map[string]SVal{}, bound: map[string]*Term{}, rc: e.cur, ext: s.ext}
+			if e.cur.fn.Pkg != nil {
+				env.pkg = e.cur.fn.Pkg.Pkg
+			}
+			for kk, v := range e.cur.params {
+				env.vars[kk] = v
+			}
+			for j, a := range args {
+				if j < len(fn.Params) {
+					env.vars[fmt.Sprintf("a%d", j)] = SVal{V: a, T: fn.Params[j].Type()}
+				}
+			}
+			if res != nil {
+				rs := fn.Signature.Results()
+				if rs.Len() == 1 {
+					env.vars["r0"] = SVal{V: res, T: rs.At(0).Type()}
+				} else if tu, ok := res.(Tuple); ok {
+					for j := 0; j < rs.Len(); j++ {
+						env.vars[fmt.Sprintf("r%d", j)] = SVal{V: tu.E[j], T: rs.At(j).Type()}
+					}
+				}
+			}
+			return env
+		}
+		var posts []*CallAssume
+		for _, ca := range e.cur.spec.CallAssumes {
+			if !strings.HasSuffix(key, ca.Callee) {
+				continue
+			}
+			e.noteAbstract("assumed at calls of " + ca.Callee + ": " + ca.Cl.Text)
+			if ca.Post {
+				posts = append(posts, ca)
+				continue
+			}
+			t, facts := e.clauseAssume(mkEnv(st, nil), ca.Cl)
+			e.flushWF(st)
+			st.assume(t)
+			st.facts = append(st.facts, facts...)
+		}
+		if len(posts) > 0 {
+			k0 := k
+			k = func(s2 *State, res Value) {
+				for _, ca := range posts {
+					t, facts := e.clauseAssume(mkEnv(s2, res), ca.Cl)
+					e.flushWF(s2)
+					s2.assume(t)
+					s2.facts = append(s2.facts, facts...)
+				}
+				k0(s2, res)
+			}
+		}
+	}
 	if e.intrinsic(fr, x, key, fn, args, st, k) {
 		return
 	}
